@@ -354,6 +354,9 @@ func (ex *Exec) jsonEncode(v Value, t types.Type, depth int) *JNode {
 		return ex.jsonEncode(v.(StructV).fields[0], tyMapStrIface, depth+1)
 	}
 	if np := namedPath(t); np != "" && ex.hasMethod(t, "MarshalJSON") {
+		if strings.HasPrefix(np, repoMod+"/") {
+			return ex.jsonEncodeViaMethod(v, t)
+		}
 		ex.unsupported("json.Marshal of type with custom MarshalJSON: " + np)
 	}
 	switch u := t.Underlying().(type) {
@@ -499,21 +502,89 @@ func (ex *Exec) isEmptyJSON(v Value) (bool, bool) {
 }
 
 func (ex *Exec) newToken(n *JNode) *Term {
+	if ex.nestedMarshal > 0 {
+		// the result of a json.Marshal made inside a MarshalJSON method: consumed by jsonEncodeViaMethod as the node it
+		// stands for, never seen as a string by the solver
+		ex.symSeq++
+		t := mkVar(fmt.Sprintf("json!nested!%d", ex.symSeq), SStr)
+		ex.jsonTok[t] = n
+		return t
+	}
 	t := ex.fresh("json", SStr)
 	ex.solver.Send(fmt.Sprintf("(assert (>= (str.len %s) 2))", smtSym(t.s)))
 	ex.jsonTok[t] = n
 	return t
 }
 
-func icJSONMarshal(ex *Exec, fr *frame, fn *ssaFunction, args []Value, pos tokenPos) Value {
+// jsonMarshalErr carries the error a custom MarshalJSON returned up to the json.Marshal call that triggered it.
+type jsonMarshalErr struct{ err Value }
+
+func icJSONMarshal(ex *Exec, fr *frame, fn *ssaFunction, args []Value, pos tokenPos) (result Value) {
 	iv := args[0].(IfaceV)
 	var n *JNode
 	if iv.t == nil {
 		n = &JNode{kind: "null"}
 	} else {
+		depth := ex.depth
+		nested := ex.nestedMarshal
+		stack := len(ex.callStack)
+		defer func() {
+			if r := recover(); r != nil {
+				if me, ok := r.(jsonMarshalErr); ok {
+					ex.nestedMarshal = nested
+					ex.depth = depth
+					ex.callStack = ex.callStack[:stack]
+					result = TupleV{SliceV{}, me.err}
+					return
+				}
+				panic(r)
+			}
+		}()
 		n = ex.jsonEncode(iv.v, iv.t, 0)
 	}
 	return TupleV{SliceV{str: ex.newToken(n)}, IfaceV{}}
+}
+
+// jsonEncodeViaMethod: a repository type with its own MarshalJSON is encoded by running that method from its SSA; the
+// bytes it returns are a token of the value model (the result of a nested json.Marshal) or constant text.
+func (ex *Exec) jsonEncodeViaMethod(v Value, t types.Type) *JNode {
+	sel := ex.prog.MethodSets.MethodSet(t).Lookup(nil, "MarshalJSON")
+	recv := v
+	if sel == nil {
+		ex.unsupported("json.Marshal: MarshalJSON with a pointer receiver on a non-addressable " + t.String())
+	}
+	m := ex.prog.MethodValue(sel)
+	if m == nil {
+		ex.unsupported("json.Marshal: no body for MarshalJSON of " + t.String())
+	}
+	ex.nestedMarshal++
+	out := ex.callFunction(m, []Value{recv}, nil)
+	ex.nestedMarshal--
+	res, ok := out.(TupleV)
+	if !ok || len(res) != 2 {
+		ex.unsupported("json.Marshal: unexpected MarshalJSON result")
+	}
+	if e, isI := res[1].(IfaceV); isI && e.t != nil {
+		panic(jsonMarshalErr{res[1]})
+	}
+	data, ok := res[0].(SliceV)
+	if !ok {
+		ex.unsupported("json.Marshal: MarshalJSON returned no bytes")
+	}
+	if data.str != nil {
+		if n, isTok := ex.jsonTok[data.str]; isTok {
+			return n
+		}
+		if data.str.op == "c" {
+			g, err := parseJSONText(data.str.s)
+			if err != nil {
+				ex.unsupported("json.Marshal: MarshalJSON returned invalid JSON text")
+			}
+			return genericToJNode(g)
+		}
+	}
+	ex.unsupported("json.Marshal: MarshalJSON returned bytes the value model cannot follow")
+	return nil
 }
 
 // genericToJNode converts a natively parsed JSON document into a node with constant leaves.
